@@ -1047,4 +1047,7 @@ var spec = run.Spec[Case]{ID: "C17", Name: "mix", Gen: genCase, Prop: prop, Clas
 func TestPropMix(t *testing.T) { run.Generated(t, spec) }
 func TestRace(t *testing.T)    { run.Generated(t, spec) } // same property, run from the -race binary by the driver
 func TestRegress(t *testing.T) { run.Regress(t, spec) }
-func TestReplay(t *testing.T)  { run.ReplayOne(t, spec) }
+func TestReplay(t *testing.T) {
+	run.ReplayOne(t, spec)
+	run.ReplayOne(t, stressSpec)
+}
